@@ -21,9 +21,13 @@ import (
 	"errors"
 	"fmt"
 	"io"
+	"net"
 	"os"
+	"runtime"
+	"strings"
 	"sync"
 	"testing"
+	"time"
 
 	gogotypes "github.com/gogo/protobuf/types"
 	"github.com/gtank/merlin"
@@ -36,6 +40,7 @@ import (
 	cryptoenc "github.com/tendermint/tendermint/crypto/encoding"
 	"github.com/tendermint/tendermint/crypto/secp256k1"
 	"github.com/tendermint/tendermint/libs/protoio"
+	"github.com/tendermint/tendermint/p2p"
 	"github.com/tendermint/tendermint/p2p/conn"
 	tmp2p "github.com/tendermint/tendermint/proto/tendermint/p2p"
 
@@ -57,10 +62,11 @@ var harness = &simcore.Harness{
 	MaxOps: 1200,
 	Real: []string{"p2p/conn.MakeSecretConnection (ephemeral exchange, key derivation, challenge signature and verification) on both ends",
 		"p2p/conn.SecretConnection.Write / Read / Close / RemotePubKey (framing, AEAD sealing/opening, nonce counters, receive buffer)",
-		"crypto/ed25519 signing and verification, crypto/encoding, libs/protoio, libs/async"},
+		"crypto/ed25519 signing and verification, crypto/encoding, libs/protoio, libs/async",
+		"mode upgrade: p2p.MultiplexTransport.upgrade on both ends (secret-connection handshake with timeout, NodeInfo exchange, dialled-id / self-reported-id / Validate / self / CompatibleWith checks, cleanup)"},
 	Stub: []string{"the network: a simulated full-duplex pipe whose four half-streams are advanced by the simulator (delivery sizes, order, back-pressure window in frames)",
 		"the adversary: a man in the middle editing units in flight (relay topology) or a harness-side implementation of the handshake and frame format written from spec/p2p/peer.md with its own ephemeral keys and identity (evil topology)",
-		"p2p.MultiplexTransport.upgrade (dialled-id / NodeInfo-id check): not reachable without sockets or an export hook, not exercised"},
+		"p2p.MultiplexTransport's listener / dialer / connection filters: upgrade() is entered through hook H6 (VerifUpgrade) on a simulated net.Conn whose deadlines run on the fake clock"},
 	Assumptions: []string{"the adversary cannot break X25519, ed25519, HKDF-SHA256 or ChaCha20-Poly1305 and does not know the long-term private keys of A and B",
 		"wire format: first unit is a varint-delimited 32-byte ephemeral key, afterwards sealed frames of 1028+16 bytes carrying at most 1024 plaintext bytes each; one Write of n bytes produces ceil(n/1024) frames",
 		"ephemeral keys of the real ends are drawn from crypto/rand; runs are replay-exact at the level of units, offsets and lengths, not of ciphertext values"},
@@ -123,6 +129,25 @@ func genConfig(rng *simcore.RNG, env *simcore.Env) simcore.Op {
 	c["tamper"] = tk
 	c["tamper_pm"] = []int{30, 80, 200}[rng.Intn(3)] // per mille of data-phase ops
 	c["close"] = rng.Bool(0.2)
+	// transport-level family: MultiplexTransport.upgrade on both ends
+	c["mode"] = "sc"
+	if rng.Bool(0.22) {
+		c["mode"] = "upgrade"
+		up := []string{"honest", "wrong_dial", "nodeinfo_id", "incompat", "invalid", "self", "reflect", "relay_mitm", "timeout"}[rng.Weighted([]int{22, 12, 14, 10, 12, 8, 8, 16, 6})]
+		c["up"] = up
+		c["hs"] = "none"
+		c["long"] = false
+		switch up {
+		case "nodeinfo_id":
+			c["hs"] = "splice"
+		case "reflect":
+			c["hs"] = "reflect_self"
+		case "relay_mitm":
+			c["hs"] = []string{"eph", "auth", "hsany", "ninfo"}[rng.Intn(4)]
+		}
+		c["dial"] = rng.Bool(0.7) // side 0 passes a dialled address
+		c["nops"] = rng.Range(20, 80)
+	}
 	c["keyA"] = rng.Intn(1 << 30)
 	c["keyB"] = rng.Intn(1 << 30)
 	c["keyM"] = rng.Intn(1 << 30)
@@ -153,7 +178,66 @@ type end struct {
 	// writer-side unit parser
 	pend    []byte
 	unitIdx int
+	// deadline on the bubble's fake clock (mode upgrade)
+	dlTimer  *time.Timer
+	dlGen    int
+	timedOut bool
 }
+
+type timeoutErr struct{}
+
+func (timeoutErr) Error() string   { return "simpipe: i/o timeout" }
+func (timeoutErr) Timeout() bool   { return true }
+func (timeoutErr) Temporary() bool { return true }
+
+var errTimeout error = timeoutErr{}
+
+func (e *end) LocalAddr() net.Addr  { return &net.TCPAddr{IP: net.IPv4(127, 0, 0, 1), Port: 26000 + e.id} }
+func (e *end) RemoteAddr() net.Addr { return &net.TCPAddr{IP: net.IPv4(127, 0, 0, 1), Port: 26001 - e.id} }
+
+// SetDeadline: a zero time clears it. When the deadline passes (fake clock) parked and later
+// calls fail with a timeout. The two ends never time out at the same fake instant.
+func (e *end) SetDeadline(t time.Time) error {
+	s := e.s
+	s.mu.Lock()
+	defer s.mu.Unlock()
+	if e.closed {
+		return errClosed
+	}
+	e.dlGen++
+	gen := e.dlGen
+	if e.dlTimer != nil {
+		e.dlTimer.Stop()
+		e.dlTimer = nil
+	}
+	e.timedOut = false
+	if t.IsZero() {
+		return nil
+	}
+	d := time.Until(t) + time.Duration(5*e.id+1)
+	e.dlTimer = time.AfterFunc(d, func() {
+		s.mu.Lock()
+		defer s.mu.Unlock()
+		if e.dlGen != gen || e.closed {
+			return
+		}
+		e.timedOut = true
+		s.env.Count("fault.deadline_fired")
+		if e.rreq != nil {
+			e.rreq.err = errTimeout
+			close(e.rreq.done)
+			e.rreq = nil
+		}
+		if e.wreq != nil {
+			e.wreq.err = errTimeout
+			close(e.wreq.done)
+			e.wreq = nil
+		}
+	})
+	return nil
+}
+func (e *end) SetReadDeadline(t time.Time) error  { return e.SetDeadline(t) }
+func (e *end) SetWriteDeadline(t time.Time) error { return e.SetDeadline(t) }
 
 var errClosed = errors.New("simpipe: closed")
 var errReset = errors.New("simpipe: connection reset by peer")
@@ -168,6 +252,10 @@ func (e *end) Read(p []byte) (int, error) {
 	if len(p) == 0 {
 		s.mu.Unlock()
 		return 0, nil
+	}
+	if e.timedOut {
+		s.mu.Unlock()
+		return 0, errTimeout
 	}
 	if len(e.avail) > 0 {
 		n := copy(p, e.avail)
@@ -198,6 +286,10 @@ func (e *end) Write(p []byte) (int, error) {
 		s.mu.Unlock()
 		return 0, errReset
 	}
+	if e.timedOut {
+		s.mu.Unlock()
+		return 0, errTimeout
+	}
 	if s.canAccept(e) {
 		s.sink(e, p)
 		s.mu.Unlock()
@@ -218,6 +310,10 @@ func (e *end) Close() error {
 		return nil
 	}
 	e.closed = true
+	if e.dlTimer != nil {
+		e.dlTimer.Stop()
+		e.dlTimer = nil
+	}
 	if e.rreq != nil {
 		e.rreq.err = errClosed
 		close(e.rreq.done)
@@ -313,6 +409,11 @@ type side struct {
 	out     []byte     // plaintext written by this side (evil topology: checked by the evil endpoint)
 	outCh   []int      // chunk model for out
 	evil    *evilEnd   // evil topology: the attacker this side talks to
+	// mode upgrade
+	mt     *p2p.MultiplexTransport
+	info   p2p.DefaultNodeInfo // what this side's transport reports about itself
+	dialed *p2p.NetAddress
+	upNI   p2p.NodeInfo
 }
 
 type sim struct {
@@ -333,6 +434,9 @@ type sim struct {
 	dead      bool
 	tamperSet map[string]bool
 	notes     int
+	upgrade   bool
+	up        string
+	slept     time.Duration // mode upgrade: fake time the simulator let pass
 }
 
 func isEvil(hs string) bool {
@@ -363,6 +467,11 @@ func newSim(env *simcore.Env, cfg simcore.Op) simcore.Sim {
 		sd.end = &end{s: s, id: i}
 		s.sd[i] = sd
 	}
+	s.upgrade = cfg.Str("mode") == "upgrade"
+	s.up = cfg.Str("up")
+	if s.upgrade {
+		s.setupUpgrade()
+	}
 	if s.evilTopo {
 		for i := 0; i < 2; i++ {
 			s.sd[i].evil = newEvil(s, i)
@@ -370,6 +479,30 @@ func newSim(env *simcore.Env, cfg simcore.Op) simcore.Sim {
 	}
 	for i := 0; i < 2; i++ {
 		sd := s.sd[i]
+		if s.upgrade {
+			go func() {
+				var sc *conn.SecretConnection
+				var ni p2p.NodeInfo
+				var err error
+				var pv string
+				func() {
+					defer func() {
+						if r := recover(); r != nil {
+							pv = fmt.Sprint(r)
+						}
+					}()
+					sc, ni, err = sd.mt.VerifUpgrade(sd.end, sd.dialed)
+				}()
+				s.mu.Lock()
+				sd.sc, sd.upNI, sd.hsErr, sd.hsPanic, sd.hsDone = sc, ni, err, pv, true
+				s.mu.Unlock()
+			}()
+			env.Settle()
+			// the two handshake deadlines are set at different fake instants
+			time.Sleep(time.Millisecond + 3)
+			env.Settle()
+			continue
+		}
 		go func() {
 			var sc *conn.SecretConnection
 			var err error
@@ -534,6 +667,9 @@ type evilEnd struct {
 	honest   bool
 	broken   bool
 	eGot     int
+	inPlain  []byte // mode upgrade: plaintext received after the handshake
+	sentInfo bool
+	sentNI   *p2p.DefaultNodeInfo
 }
 
 func newEvil(s *sim, r int) *evilEnd {
@@ -676,6 +812,7 @@ func (e *evilEnd) poll() {
 		}
 	}
 	e.trySendAuth()
+	e.trySendInfo()
 }
 
 // dataFrame: a frame written by the real side must open with exactly the next counter value
@@ -709,6 +846,10 @@ func (e *evilEnd) dataFrame(idx int, u []byte) {
 	if l > chunkMax {
 		s.env.Report("C16", "bad-frame-written", "real side %d wrote a frame with length field %d", e.r, l)
 		e.broken = true
+		return
+	}
+	if s.upgrade {
+		e.inPlain = append(e.inPlain, pt[4:4+l]...)
 		return
 	}
 	if e.eGot+l > len(sd.out) || !bytes.Equal(pt[4:4+l], sd.out[e.eGot:e.eGot+l]) {
@@ -921,6 +1062,10 @@ func (s *sim) Next(rng *simcore.RNG) simcore.Op {
 				return op
 			}
 		}
+		if s.upgrade && s.up == "timeout" && rng.Bool(0.55) {
+			// the network stalls: the handshake deadlines (fake clock) run
+			return simcore.Op{"a": "tick", "ms": rng.Range(300, 1600)}
+		}
 		var cand []int
 		for r := 0; r < 2; r++ {
 			if s.st[r].deliverable() {
@@ -1069,6 +1214,32 @@ func (s *sim) genHsEdit(rng *simcore.RNG, hs string) simcore.Op {
 			}
 		}
 		return nil
+	case "ninfo":
+		// the sealed NodeInfo message (unit 2) while it is in flight
+		for _, r := range rng.Perm(2) {
+			st := s.st[r]
+			for k := st.editable(); k < len(st.q); k++ {
+				if st.q[k].orig == 2 {
+					switch rng.Intn(6) {
+					case 0, 1:
+						return simcore.Op{"a": "flip", "r": r, "k": k, "off": rng.Intn(frameSize), "bit": rng.Intn(8)}
+					case 2:
+						return simcore.Op{"a": "inject", "r": r, "at": k, "seed": rng.Intn(1 << 30)}
+					case 3:
+						if len(st.hist) > 0 {
+							return simcore.Op{"a": "replay", "r": r, "h": rng.Intn(len(st.hist)), "at": k}
+						}
+					case 4:
+						if len(s.sd[r].sent) > 2 {
+							return simcore.Op{"a": "xinj", "r": r, "i": 2, "at": k, "repl": true}
+						}
+					default:
+						return simcore.Op{"a": "drop", "r": r, "k": k}
+					}
+				}
+			}
+		}
+		return nil
 	case "hsany":
 		if rng.Bool(0.5) {
 			return nil
@@ -1106,6 +1277,18 @@ func (s *sim) Apply(op simcore.Op) bool {
 		return false
 	}
 	e := s.env
+	if op.Kind() == "tick" {
+		d := time.Duration(op.Int("ms")) * time.Millisecond
+		if !s.upgrade || d <= 0 || d > time.Minute {
+			return false
+		}
+		time.Sleep(d) // never while holding mu: the deadline timers need it
+		s.slept += d
+		e.Count("op.tick")
+		e.Settle()
+		s.after()
+		return true
+	}
 	s.mu.Lock()
 	ok := s.apply1(op)
 	if ok {
@@ -1439,6 +1622,12 @@ func (s *sim) deliver(r, n int) bool {
 			if len(st.hist) < 24 {
 				st.hist = append(st.hist, &qent{b: q.b, orig: q.orig})
 			}
+			if s.upgrade {
+				// mode upgrade: one protocol unit per stimulus. upgrade() closes the connection
+				// itself the moment a read fails; if the failing unit were already available when
+				// a phase starts, that close would race with the phase's own writer goroutine.
+				break
+			}
 		}
 	}
 	if moved == 0 {
@@ -1495,7 +1684,7 @@ func (s *sim) after() {
 				if sd.hsErr != nil {
 					e.Note("hs side=%d err=%v", i, sd.hsErr)
 				}
-				if !ok && !sd.closedH {
+				if !ok && !sd.closedH && !s.upgrade {
 					// the caller of a failed MakeSecretConnection closes the connection
 					sd.closedH = true
 					toClose = append(toClose, sd)
@@ -1542,6 +1731,11 @@ func panicIfFailed(e *simcore.Env) {
 
 // checkHandshake: both MakeSecretConnection calls have returned. Caller holds mu.
 func (s *sim) checkHandshake() {
+	if s.upgrade {
+		s.checkUpgrade()
+		s.hsOK = false
+		return
+	}
 	e := s.env
 	hs := s.cfg.Str("hs")
 	okc := 0
@@ -1855,4 +2049,300 @@ func (s *sim) Close() {
 	}
 	s.mu.Unlock()
 	s.env.Settle()
+}
+
+// ---------------------------------------------------------------- mode upgrade (transport level)
+
+func baseInfo(id p2p.ID) p2p.DefaultNodeInfo {
+	return p2p.DefaultNodeInfo{ProtocolVersion: p2p.NewProtocolVersion(8, 11, 0), DefaultNodeID: id, ListenAddr: "127.0.0.1:26656",
+		Network: "simnet", Version: "0.34.24", Channels: []byte{0x20, 0x30, 0x40}, Moniker: "node"}
+}
+
+func idOf(k crypto.PubKey) p2p.ID { return p2p.PubKeyToID(k) }
+
+func addrOf(id p2p.ID) *p2p.NetAddress {
+	return &p2p.NetAddress{ID: id, IP: net.IPv4(127, 0, 0, 1), Port: 26656}
+}
+
+// liar: the side whose self-description is off in scenarios invalid / incompat.
+func (s *sim) liar() int { return s.cfg.Int("var") % 2 }
+
+func (s *sim) setupUpgrade() {
+	v := s.cfg.Int("var")
+	if s.up == "self" {
+		s.sd[1].priv = s.sd[0].priv
+	}
+	for i := 0; i < 2; i++ {
+		s.sd[i].info = baseInfo(idOf(s.sd[i].priv.PubKey()))
+	}
+	peerOf := func(i int) p2p.ID {
+		if s.evilTopo {
+			if s.up == "reflect" {
+				return idOf(s.sd[1-i].priv.PubKey()) // whom side i believes it is dialling
+			}
+			return idOf(s.privM.PubKey())
+		}
+		return idOf(s.sd[1-i].priv.PubKey())
+	}
+	if s.cfg.Bool("dial") {
+		s.sd[0].dialed = addrOf(peerOf(0))
+	}
+	b := &s.sd[s.liar()].info
+	switch s.up {
+	case "wrong_dial":
+		ids := []p2p.ID{idOf(s.privM.PubKey()), idOf(s.sd[0].priv.PubKey()), p2p.ID(fmt.Sprintf("%040x", v))}
+		s.sd[0].dialed = addrOf(ids[(v/2)%3])
+	case "incompat":
+		switch (v / 2) % 3 {
+		case 0:
+			b.Network = "othernet"
+		case 1:
+			b.ProtocolVersion.Block = 12
+		default:
+			b.Channels = []byte{0x21, 0x31}
+		}
+	case "invalid":
+		switch (v / 2) % 9 {
+		case 0:
+			b.DefaultNodeID = "deadbeef"
+		case 1:
+			b.DefaultNodeID = p2p.ID(strings.Repeat("zz", 20))
+		case 2:
+			b.ListenAddr = "127.0.0.1"
+		case 3:
+			b.ListenAddr = "127.0.0.1:http"
+		case 4:
+			b.Channels = []byte{1, 2, 3, 4, 5, 6, 7, 8, 9, 10, 11, 12, 13, 14, 15, 16, 17}
+		case 5:
+			b.Channels = []byte{0x20, 0x30, 0x20}
+		case 6:
+			b.Moniker = ""
+		case 7:
+			b.Version = "\t"
+		default:
+			b.Other.TxIndex = "maybe"
+		}
+	}
+	for i := 0; i < 2; i++ {
+		sd := s.sd[i]
+		sd.mt = p2p.NewMultiplexTransport(sd.info, p2p.NodeKey{PrivKey: sd.priv}, conn.DefaultMConnConfig())
+	}
+}
+
+// refValid / refCompatible: what spec/p2p/peer.md says about an acceptable NodeInfo.
+func refValid(ni p2p.DefaultNodeInfo) bool {
+	id := string(ni.DefaultNodeID)
+	if len(id) != 40 {
+		return false
+	}
+	for _, c := range id {
+		if !strings.ContainsRune("0123456789abcdef", c) {
+			return false
+		}
+	}
+	host, port, err := net.SplitHostPort(ni.ListenAddr)
+	if err != nil || net.ParseIP(host) == nil {
+		return false
+	}
+	for _, c := range port {
+		if c < '0' || c > '9' {
+			return false
+		}
+	}
+	if len(ni.Channels) > 16 {
+		return false
+	}
+	seen := map[byte]bool{}
+	for _, c := range ni.Channels {
+		if seen[c] {
+			return false
+		}
+		seen[c] = true
+	}
+	return strings.TrimSpace(ni.Moniker) != "" && strings.TrimSpace(ni.Version) != "" && (ni.Other.TxIndex == "" || ni.Other.TxIndex == "on" || ni.Other.TxIndex == "off")
+}
+
+func refCompatible(a, b p2p.DefaultNodeInfo) bool {
+	if a.ProtocolVersion.Block != b.ProtocolVersion.Block || a.Network != b.Network {
+		return false
+	}
+	for _, x := range a.Channels {
+		for _, y := range b.Channels {
+			if x == y {
+				return true
+			}
+		}
+	}
+	return false
+}
+
+// evilInfo: the NodeInfo the attacker sends in mode upgrade (nil = not yet / nothing).
+func (e *evilEnd) upgradeInfo() []byte {
+	s := e.s
+	v := s.cfg.Int("var")
+	mid := idOf(s.privM.PubKey())
+	var ni p2p.DefaultNodeInfo
+	switch s.up {
+	case "nodeinfo_id":
+		ids := []p2p.ID{idOf(s.sd[1-e.r].priv.PubKey()), idOf(s.sd[e.r].priv.PubKey()), p2p.ID(fmt.Sprintf("%040x", v)), mid}
+		ni = baseInfo(ids[v%4])
+	case "reflect":
+		if v%2 == 1 {
+			ni = baseInfo(mid)
+			break
+		}
+		// echo the victim's own NodeInfo once it has arrived completely
+		l, k := binary.Uvarint(e.inPlain)
+		if k <= 0 || len(e.inPlain) < k+int(l) {
+			return nil
+		}
+		return append([]byte{}, e.inPlain[:k+int(l)]...)
+	default:
+		ni = baseInfo(mid)
+	}
+	e.sentNI = &ni
+	b, err := protoio.MarshalDelimited(ni.ToProto())
+	if err != nil {
+		panic(err)
+	}
+	return b
+}
+
+func (e *evilEnd) trySendInfo() {
+	if !e.s.upgrade || e.sentInfo || !e.sentAuth || !e.gotAuth || e.broken {
+		return
+	}
+	b := e.upgradeInfo()
+	if b == nil {
+		return
+	}
+	e.sentInfo = true
+	for _, c := range chunkSizes(len(b)) {
+		e.enqueueFrame(e.seal(uint32(c), b[:c]), true)
+		b = b[c:]
+	}
+}
+
+// checkUpgrade: both VerifUpgrade calls have returned. Caller holds mu.
+func (s *sim) checkUpgrade() {
+	e := s.env
+	hs := s.cfg.Str("hs")
+	v := s.cfg.Int("var")
+	okc := 0
+	for i := 0; i < 2; i++ {
+		sd := s.sd[i]
+		if sd.hsPanic != "" {
+			e.Fail("C16", "upgrade-panic", "upgrade of side %d panicked: %s", i, sd.hsPanic)
+		}
+		who := fmt.Sprintf("side %d (scenario %s/%s/%d, dialled=%v)", i, s.up, hs, v, sd.dialed != nil)
+		if sd.hsErr != nil {
+			rej, isRej := sd.hsErr.(p2p.ErrRejected)
+			if !isRej {
+				e.Fail("C16", "upgrade-error-type", "%s: upgrade failed with %T, not ErrRejected: %v", who, sd.hsErr, sd.hsErr)
+			}
+			if !sd.end.closed {
+				e.Fail("C16", "conn-not-closed", "%s: upgrade failed (%v) but left the connection open", who, sd.hsErr)
+			}
+			want := ""
+			switch {
+			case s.up == "honest":
+				e.Fail("C16", "upgrade-failed", "%s: upgrade between two honest, compatible nodes failed: %v", who, sd.hsErr)
+			case s.up == "wrong_dial" && i == 0:
+				want = "auth"
+			case s.up == "self":
+				want = "self"
+			case s.up == "incompat":
+				want = "incompat"
+			case s.up == "invalid" && i != s.liar():
+				want = "invalid"
+				if (v/2)%9 < 2 {
+					want = "invalid|auth"
+				}
+			case s.up == "nodeinfo_id" && v%4 != 3:
+				want = "auth"
+			case s.up == "nodeinfo_id":
+				e.Fail("C16", "upgrade-failed", "%s: upgrade with a peer that authenticated its own key and reported the matching id failed: %v", who, sd.hsErr)
+			case s.up == "reflect":
+				want = "self|auth"
+			}
+			got := map[string]bool{"auth": rej.IsAuthFailure(), "self": rej.IsSelf(), "incompat": rej.IsIncompatible(), "invalid": rej.IsNodeInfoInvalid()}
+			if want != "" && isRej {
+				hit := false
+				for _, w := range strings.Split(want, "|") {
+					hit = hit || got[w]
+				}
+				if !hit {
+					e.Fail("C16", "wrong-reject-reason", "%s: rejected, but not as %s: %v", who, want, sd.hsErr)
+				}
+			}
+			e.Note("upgrade side=%d err=%v", i, sd.hsErr)
+			continue
+		}
+		okc++
+		// success: the identity the caller gets must be the one that was authenticated, and it
+		// must be the party that really is at the other end
+		if sd.sc == nil || sd.upNI == nil {
+			e.Fail("C16", "upgrade-nil", "%s: success without connection / node info", who)
+		}
+		rp := sd.sc.RemotePubKey()
+		ni, _ := sd.upNI.(p2p.DefaultNodeInfo)
+		if sd.upNI.ID() != idOf(rp) {
+			e.Fail("C16", "id-mismatch-accepted", "%s: accepted a peer whose self-reported id %s is not the id of the key the secret connection authenticated", who, sd.upNI.ID())
+		}
+		if sd.dialed != nil && sd.dialed.ID != idOf(rp) {
+			e.Fail("C16", "dialed-mismatch-accepted", "%s: dialled id %s, accepted a peer that authenticated a different key", who, sd.dialed.ID)
+		}
+		if rp.Equals(sd.priv.PubKey()) {
+			e.Fail("C16", "self-accepted", "%s: accepted a connection authenticated with its own key", who)
+		}
+		if !refValid(ni) {
+			e.Fail("C16", "invalid-nodeinfo-accepted", "%s: accepted a malformed NodeInfo", who)
+		}
+		if !refCompatible(sd.info, ni) {
+			e.Fail("C16", "incompatible-accepted", "%s: accepted a peer on another network / block version / without common channels", who)
+		}
+		if s.evilTopo {
+			ev := sd.evil
+			if !ev.honest || !rp.Equals(s.privM.PubKey()) {
+				e.Fail("C16", "auth-bypass", "%s: upgrade succeeded although the attacker did not prove possession of the key it presented", who)
+			}
+		} else {
+			lr, lo := s.st[i].layout, s.st[1-i].layout
+			clean := len(lr) >= 3 && len(lo) >= 1 && lo[0].orig == 0
+			for k := 0; clean && k < 3; k++ {
+				clean = lr[k].orig == k
+			}
+			if !clean {
+				e.Fail("C16", "auth-bypass", "%s: upgrade succeeded although the man in the middle changed the exchange it saw", who)
+			}
+			if !rp.Equals(s.sd[1-i].priv.PubKey()) {
+				e.Fail("C16", "wrong-remote-key", "%s: authenticated key is not the peer's", who)
+			}
+		}
+		if s.up == "wrong_dial" && i == 1 || s.up == "self" || s.up == "incompat" || s.up == "reflect" || s.up == "invalid" && i != s.liar() {
+			e.Fail("C16", "should-have-rejected", "%s: upgrade succeeded", who)
+		}
+	}
+	e.Count(fmt.Sprintf("probe.up_%s_ok%d", s.up, okc))
+	if n, sample := leakedP2P(); n > 0 {
+		e.Fail("C16", "goroutine-left", "%d goroutine(s) still inside tendermint/p2p after both upgrades returned:\n%s", n, sample)
+	}
+}
+
+func leakedP2P() (int, string) {
+	buf := make([]byte, 1<<20)
+	n := runtime.Stack(buf, true)
+	cnt, sample := 0, ""
+	for _, g := range strings.Split(string(buf[:n]), "\n\n") {
+		if strings.Contains(g, "github.com/tendermint/tendermint/p2p") && !strings.Contains(g, "secconnsim.leakedP2P") {
+			cnt++
+			if sample == "" {
+				sample = g
+				if len(sample) > 1200 {
+					sample = sample[:1200]
+				}
+			}
+		}
+	}
+	return cnt, sample
 }
